@@ -647,6 +647,9 @@ func handleInputStream(s *Session, handler Handler) (err error) {
 
 	iqOk := isIQ(start.Name)
 	_, _, id, typ := getIDTyp(start.Attr)
+	// The handler is given a pointer to the start element and may change it, so
+	// remember who sent the stanza now in case we have to reply for the handler.
+	_, fromAttr := attr.Get(start.Attr, "from")
 
 	if typ == string(stanza.ResultIQ) || typ == "error" {
 		s.sentStanzaMutex.Lock()
@@ -708,7 +711,6 @@ func handleInputStream(s *Session, handler Handler) (err error) {
 	iqNeedsResp := typ == string(stanza.GetIQ) || typ == string(stanza.SetIQ)
 	// If the user did not write a response to an IQ, send a default one.
 	if iqOk && iqNeedsResp && !rw.wroteResp {
-		_, fromAttr := attr.Get(start.Attr, "from")
 		var to jid.JID
 		if fromAttr != "" {
 			to, err = jid.Parse(fromAttr)
